@@ -138,6 +138,8 @@ func (p *CodeBuilder) ValWithUnit(v *ast.BasicLit, t types.Type, unit string) *C
 	} else {
 		e.Val = &target.BasicLit{Kind: token.INT, Value: val.ExactString()}
 	}
+	// the literal alone is an untyped constant: convert it, so that the expression has the type it is reported with
+	e.Val = &target.CallExpr{Fun: toType(pkg, t), Args: []target.Expr{e.Val}}
 	e.Type = t
 	p.Val(e, v)
 	return p
